@@ -63,8 +63,12 @@ const (
 
 	hintSafeKey = "&safe"
 
-	fmtErrReturn            = "if err != nil {\n\treturn err\n}"
-	fmtAddSizeToAt          = "{\n\ttmp := (%ASGN)\n\tat += tmp.Size()\n}\n"
+	fmtErrReturn   = "if err != nil {\n\treturn err\n}"
+	fmtAddSizeToAt = "{\n\ttmp := (%ASGN)\n\tat += tmp.Size()\n}\n"
+	// messages and unions say on the wire how long they are; a reader that
+	// knows fewer fields than the writer must skip what it did not decode.
+	fmtAddMessageLenToAt    = "at += 4 + int(iohelp.ReadUint32Bytes(buf[at:]))\n"
+	fmtAddUnionLenToAt      = "at += 5 + int(iohelp.ReadUint32Bytes(buf[at:]))\n"
 	fmtAdd4PlusLenToAt      = "at += 4 + len(%ASGN)"
 	fmtAddSizeToBodyLen     = "{\n\ttmp := (%ASGN)\n\tbodyLen += tmp.Size()\n}\n"
 	fmtAdd4PlusLenToBodyLen = "bodyLen += 4 + len(%ASGN)"
@@ -338,8 +342,8 @@ func (f File) typeByteReaders(gs GenerateSettings) map[string]string {
 		out[st.Name+hintSafeKey] = makeFormat(st.Namespace, gs) + fmtErrReturn + "\n" + fmtAddSizeToAt
 	}
 	for _, msg := range f.Messages {
-		out[msg.Name] = mustMakeFormat(msg.Namespace, gs) + fmtAddSizeToAt
-		out[msg.Name+hintSafeKey] = makeFormat(msg.Namespace, gs) + fmtErrReturn + "\n" + fmtAddSizeToAt
+		out[msg.Name] = mustMakeFormat(msg.Namespace, gs) + fmtAddMessageLenToAt
+		out[msg.Name+hintSafeKey] = makeFormat(msg.Namespace, gs) + fmtErrReturn + "\n" + fmtAddMessageLenToAt
 	}
 	for _, union := range f.Unions {
 		uout := union.typeByteReaders(gs)
@@ -352,8 +356,8 @@ func (f File) typeByteReaders(gs GenerateSettings) map[string]string {
 
 func (u Union) typeByteReaders(settings GenerateSettings) map[string]string {
 	out := map[string]string{}
-	out[u.Name] = mustMakeFormat(u.Namespace, settings) + fmtAddSizeToAt
-	out[u.Name+hintSafeKey] = makeFormat(u.Namespace, settings) + fmtErrReturn + "\n" + fmtAddSizeToAt
+	out[u.Name] = mustMakeFormat(u.Namespace, settings) + fmtAddUnionLenToAt
+	out[u.Name+hintSafeKey] = makeFormat(u.Namespace, settings) + fmtErrReturn + "\n" + fmtAddUnionLenToAt
 	for _, ufd := range u.Fields {
 		if ufd.Struct != nil {
 			st := ufd.Struct
@@ -362,8 +366,8 @@ func (u Union) typeByteReaders(settings GenerateSettings) map[string]string {
 		}
 		if ufd.Message != nil {
 			msg := ufd.Message
-			out[msg.Name] = mustMakeFormat(msg.Namespace, settings) + fmtAddSizeToAt
-			out[msg.Name+hintSafeKey] = makeFormat(msg.Namespace, settings) + fmtErrReturn + "\n" + fmtAddSizeToAt
+			out[msg.Name] = mustMakeFormat(msg.Namespace, settings) + fmtAddMessageLenToAt
+			out[msg.Name+hintSafeKey] = makeFormat(msg.Namespace, settings) + fmtErrReturn + "\n" + fmtAddMessageLenToAt
 		}
 	}
 	return out
